@@ -29,7 +29,9 @@
 (*            the last child a tail call); many activations of Node live at once      *)
 (*   lend,    a procedure lends its OWN local (da) and its OWN parameter (dw) by        *)
 (*   lendt    reference to another procedure, which reads and writes through the refs    *)
-(*            and then re-enters the owner (mutual recursion through the borrower):      *)
+(*            (which of the two is lent as the first / second reference alternates with  *)
+(*            the depth) and then re-enters the owner (mutual recursion through the      *)
+(*            borrower):                                                                 *)
 (*            `lend` with call + return at the next label, `lendt` with a tail call.     *)
 (*            Meaning of a reference to a procedure variable (the meaning the compiler   *)
 (*            gives it: PGo's PlusCal back end specialises the callee per ref argument   *)
@@ -187,7 +189,8 @@ EXTENDS Integers, Sequences, TLC, ProcsData
     variables da = dn * 10;
   {
     d1: if (dn = 0) { out := Append(out, << 0, dw, da >>); return; }
-        else { call Borrow("da", "dw", dn, dt); };
+        else if (dn % 2 = 1) { call Borrow("da", "dw", dn, dt); }
+        else { call Borrow("dw", "da", dn, dt); };
     d2: out := Append(out, << dn, dw, da >>);
         return;
   }
